@@ -13,9 +13,10 @@ LEAN_MODULES = ["NiftyVerif.Props.C25"]
 DRIVER = "Driver/C25.lean"
 OBLIGATIONS = ["NiftyVerif.C25." + t for t in (
     "crash_safe_all", "crash_safe_all_single", "marker_implies_complete", "uninterrupted_all", "natSys_lawful",
+    "natSys_map_lawful",
     "asFound_marker_truncated", "asFound_marker_before_history", "asFound_marker_before_minisanity_history",
-    "asFound_latest_in_place", "latest_window_witness", "resume_correct_latest", "latest_outside_window_good",
-    "crash_safe_latest_partial")]
+    "asFound_latest_in_place", "atomicOnly_latest_window_witness", "crash_safe_latest", "crash_safe_latest_single",
+    "marker_implies_complete_latest")]
 RULE = ("case = (configuration incl. save strategy, kill points of successive runs, then an unkilled resume); ALL single "
         "kill points of the MODEL's byte-granular operation sequence (every op boundary and every position inside a "
         "write) plus random double kills are mapped to the real run and executed on the real driver with simulated "
@@ -35,7 +36,8 @@ TRUSTED_BASE = [
 ASSUMPTIONS = [
     "a crash is a process kill; power loss is outside the model", "os.replace is atomic",
     "single task (comm=None); the restarted call gets the same arguments",
-    "n_samples >= 1 (MAP runs use SampleList.save without a mean file: same _save_to_disk, not modelled)",
+    "MAP runs (n_samples = 0: one sample file, no mean file, resume through SampleList.load) are instances of the model "
+    "(encMean = none); runs mixing VI and MAP iterations are covered by the oracle only",
 ]
 VOLATILE = ("minisanity.txt", "counting_report.txt")      # contain datetime.now(): never compared byte-wise
 
@@ -64,6 +66,7 @@ def _setup(cfg):
         return orig_min(self, energy, *a, **kw)
     ift.NewtonCG.__call__ = counting_call
     n_samples = int(cfg.get("n_samples", 1))
+    ns_list = cfg.get("ns_list")      # per-iteration n_samples (0 = MAP iteration without sampling controller)
 
     def drive(odir, resume, copy_to=None):
         # a fresh process: module-level RNG state as after import, then the user's seed
@@ -77,8 +80,11 @@ def _setup(cfg):
             def cb(sl, iglobal):  # reference run only: keep every iteration's directory content (outside odir)
                 shutil.copytree(odir, os.path.join(copy_to, str(iglobal)))
             kw["inspect_callback"] = cb
+        ns_arg, ic_arg = n_samples, (ic if n_samples else None)
+        if ns_list:
+            ns_arg, ic_arg = (lambda i: ns_list[i]), (lambda i: ic if ns_list[i] else None)
         sl, mean = ift.optimize_kl(
-            lh, int(cfg["n"]), n_samples, mini, ic if n_samples else None, nonlinear_sampling_minimizer=nl,
+            lh, int(cfg["n"]), ns_arg, mini, ic_arg, nonlinear_sampling_minimizer=nl,
             export_operator_outputs={"sig": sig} if cfg.get("export") else {}, output_directory=odir,
             save_strategy=cfg.get("strategy", "latest"), resume=bool(resume), return_final_position=True,
             plot_energy_history=bool(cfg.get("plots")), plot_minisanity_history=bool(cfg.get("plots")), **kw)
@@ -449,15 +455,48 @@ def _real_kill(pos, ops):
 def _configs(ctx):
     seed = ctx.rng.randrange(1000)
     cfgs = [dict(n=3, seed=seed, n_samples=1, strategy="all", r0=False),
-            dict(n=3, seed=seed, n_samples=1, strategy="latest", r0=False)]
+            dict(n=3, seed=seed, n_samples=1, strategy="latest", r0=False),
+            dict(n=3, seed=seed + 5, n_samples=0, strategy="latest", r0=False)]      # MAP run
     if not ctx.quick:
         cfgs += [dict(n=3, seed=seed + 1, n_samples=2, strategy="all", r0=True, geovi=True),
                  dict(n=4, seed=seed + 2, n_samples=1, strategy="latest", r0=True),
-                 dict(n=2, seed=seed + 3, n_samples=2, strategy="latest", r0=False, geovi=True)]
+                 dict(n=2, seed=seed + 3, n_samples=2, strategy="latest", r0=False, geovi=True),
+                 dict(n=3, seed=seed + 6, n_samples=0, strategy="all", r0=True)]
     return cfgs
 
 
-def _corpus(ctx):
+import threading
+
+_LOCK = threading.RLock()
+
+
+def _tv(ctx, n):
+    with _LOCK:
+        ctx.traces_validated += n
+
+
+class _Shared:
+    """view of the run context for one configuration's thread: own PRNG (drawn from the run's PRNG before the threads
+    start, so the run stays a function of VERIF_SEED), counters and findings of the shared context under a lock"""
+
+    def __init__(self, ctx, rng):
+        self.__dict__.update(_ctx=ctx, rng=rng)
+
+    def __getattr__(self, name):
+        v = getattr(self._ctx, name)
+        if callable(v) and name in ("case", "stat", "compare", "disagree", "counterexample", "broke"):
+            def locked(*a, **kw):
+                with _LOCK:
+                    return v(*a, **kw)
+            return locked
+        return v
+
+    def __setattr__(self, name, value):
+        with _LOCK:
+            setattr(self._ctx, name, value)
+
+
+def _corpus_cases():
     from core.ctx import VERIF
     d = os.path.join(VERIF, "corpus", ID)
     cases = []
@@ -465,26 +504,78 @@ def _corpus(ctx):
         if fn.endswith(".json"):
             rec = json.load(open(os.path.join(d, fn)))
             cases += rec.get("cases", [rec] if "kills" in rec else [])
-    for c in cases:   # reference sessions first (one per distinct configuration), then the replays in parallel
-        key = json.dumps(c["cfg"], sort_keys=True)
-        if key not in _SESS:
+    return cases
+
+
+def _corpus(ctx):
+    """corpus first: minimised past failures, replayed with simulated kills in one session process per distinct
+    configuration; a case that fails there is confirmed with real process kills (oracle) before it is reported"""
+    groups = {}
+    for c in _corpus_cases():
+        groups.setdefault(json.dumps(c["cfg"], sort_keys=True), []).append(c)
+    for key, cs in groups.items():
+        try:
+            o = _run_session("corpus" + hashlib.sha1(key.encode()).hexdigest()[:8], cs[0]["cfg"],
+                             [dict(sid=i, kills=c["kills"]) for i, c in enumerate(cs)])
+        except Infra as e:
+            ctx.notes.append(f"corpus replay skipped: {e}")
+            continue
+        _SESS.setdefault(key, o)
+        if o["ref"]["status"] != "done":
+            continue
+        for i, c in enumerate(cs):
+            ctx.case(dict(corpus=True, **c))
+            ctx.stat("corpus")
+            sc = o["scen"].get(str(i))
+            if sc is None:
+                continue
             try:
-                _SESS[key] = _run_session("c" + hashlib.sha1(key.encode()).hexdigest()[:8], c["cfg"], [])
+                j = _judge(c["cfg"], sc, o["ref"]["res"])
             except Infra:
-                pass
-    for case, r in _pool().map(lambda c: (c, oracle(c)), cases):
-        ctx.case(dict(corpus=True, **case))
-        ctx.stat("corpus")
-        if r:
-            ctx.counterexample(case, *r)
+                continue
+            if j:
+                r = oracle(c)
+                if r:
+                    ctx.counterexample(c, *r)
 
 
 def run(ctx):
-    _corpus(ctx)
-    for cfg in _configs(ctx):
-        _run_cfg(ctx, cfg)
-    if not ctx.quick:
-        _run_opaque(ctx)
+    import random
+    import time
+    jobs = [("corpus", None)] + [("cfg", c) for c in _configs(ctx)] + [("map", "latest-mixed")] + ([("opaque", None)] if not ctx.quick else [])
+    rngs = [random.Random(ctx.rng.randrange(10 ** 9)) for _ in jobs]
+    errs = []
+
+    def work(job, rng):
+        kind, cfg = job
+        sh = _Shared(ctx, rng)
+        t0 = time.time()
+        try:
+            if kind == "corpus":
+                _corpus(sh)
+            elif kind == "cfg":
+                _run_cfg(sh, cfg)
+            elif kind == "map":
+                _run_opaque(sh, kind, cfg)
+            else:
+                _run_opaque(sh, kind)
+        except BaseException as e:  # noqa: BLE001 - re-raised in the main thread
+            errs.append(e)
+        with _LOCK:
+            ctx.extra.setdefault("phase_s", {})[kind + ("" if cfg is None else ":" + (cfg if isinstance(cfg, str) else cfg["strategy"] + str(cfg["seed"]) + ("" if cfg["n_samples"] else "map")))] = \
+                round(time.time() - t0, 1)
+    # the configurations are independent: one thread each (they spend their time waiting for worker processes)
+    width = 6 if ctx.quick else 3
+    pending = list(zip(jobs, rngs))
+    while pending:
+        batch, pending = pending[:width], pending[width:]
+        ts = [threading.Thread(target=work, args=a) for a in batch]
+        for t in ts:
+            t.start()
+        for t in ts:
+            t.join()
+    if errs:
+        raise errs[0]
 
 
 def _session_chunks(ctx, cfg, scenarios, nsess, extra=None):
@@ -499,9 +590,10 @@ def _session_chunks(ctx, cfg, scenarios, nsess, extra=None):
 
 def _run_cfg(ctx, cfg):
     n, r0, strat = cfg["n"], cfg["r0"], cfg["strategy"]
-    nsamp = 2 * cfg["n_samples"]
-    protos = ("repaired", "asFound")
-    base = dict(strategy=strat, total=n, nsamp=nsamp)
+    vi = cfg["n_samples"] > 0           # MAP run (n_samples = 0): SampleList, one sample file, no mean file
+    nsamp = 2 * cfg["n_samples"] if vi else 1
+    protos = ("repaired", "atomicOnly", "asFound")
+    base = dict(strategy=strat, total=n, nsamp=nsamp, vi=vi)
     mo = dict(zip(protos, ctx.model(DRIVER, [dict(op="ops", proto=p, resume=r0, **base) for p in protos])))
     # phase A: reference run (which protocol does the code follow?)
     try:
@@ -518,21 +610,21 @@ def _run_cfg(ctx, cfg):
         return
     real_coarse = F.coarse(ref["ops"], drop_noop_mkdir=False)
     proto = next((p for p in protos if mo[p]["coarse"] == real_coarse), None)
-    ctx.traces_validated += 1
+    _tv(ctx, 1)
     ctx.compare(case0, dict(coarse=real_coarse), dict(coarse=mo["repaired"]["coarse"]),
                 note=f"[{strat}] op sequence of the real uninterrupted run vs model (repaired protocol)"
-                     + (" — the real sequence equals the model of the AS-FOUND protocol" if proto == "asFound" else ""))
+                     + (f" — the real sequence equals the model of the protocol {proto}" if proto not in ("repaired", None) else ""))
     ctx.stat(f"{strat}:real-protocol={proto}")
     if ref["res"]["iterations"] != n or ref["res"]["n_samples"] != nsamp:
         ctx.disagree(case0, ref["res"], dict(iterations=n, n_samples=nsamp), "uninterrupted run: iterations / samples")
     if proto is None:
         kills = [[dict(at=k, when="before")] for k in range(len(ref["ops"]) + 1)]
-        kills += [[dict(at=k, when="partial", frac=[1, 2])] for k, ev in enumerate(ref["ops"]) if ev["op"] == "write"]
+        kills += [[dict(at=k, when="partial", frac=[1, 2])] for k, ev in enumerate(ref["ops"]) if ev["op"] == "flush"]
         outs = _session_chunks(ctx, cfg, [dict(sid=i, kills=k) for i, k in enumerate(kills)], ctx.n(3, 6))
         _report_failures(ctx, cfg, {k: v for o in outs for k, v in o["scen"].items()}, ref, set())
         return
     nfine = mo[proto]["fine"]
-    rng = __import__("random").Random(ctx.rng.randrange(10 ** 9))
+    rng = ctx.rng
     singles = list(range(nfine + 1))
     if ctx.quick:   # stratified: every point of the middle iteration, every 6th elsewhere, first/last
         per = (nfine - 5) // n
@@ -550,7 +642,7 @@ def _run_cfg(ctx, cfg):
              dict(at=p["coarse"], when="before") if p["off"] == 0 else
              dict(at=p["coarse"], when="partial", frac=[p["off"], p["len"]])) for p in poss[1:]]
         scenarios.append(dict(sid=sid, kills=kills))
-    outs = _session_chunks(ctx, cfg, scenarios, ctx.n(4, 6))
+    outs = _session_chunks(ctx, cfg, scenarios, ctx.n(3, 6))
     if any(o["ref"]["res"] != ref["res"] for o in outs):
         ctx.disagree(case0, [o["ref"]["res"] for o in outs], ref["res"], "the uninterrupted run is not deterministic")
         return
@@ -584,17 +676,17 @@ def _run_cfg(ctx, cfg):
         modl = dict(stages=[dict(files=st["files"], coarse=st["coarse"], outcome=out_model(st["outcome"]))
                             for st in sim["stages"]][:len(sc["stages"])])
         strict = m_ok and all(out_model(st["outcome"]) in ("killed", "ok") for st in sim["stages"])
-        if strict or proto == "asFound":
+        if strict or proto != "repaired":
             impl["final"] = dict(outcome=out_real(fin), coarse=fin["coarse"], files=fin["files"])
             modl["final"] = dict(outcome=out_model(mfin["outcome"]), coarse=mfin["coarse"], files=mfin["files"])
         if not strict:
             # inside a failure window only the first killed directory is exact in the model
             impl["stages"], modl["stages"] = impl["stages"][:1], modl["stages"][:1]
-            if proto == "asFound" and out_model(mfin["outcome"]) == "wrong":
+            if proto != "repaired" and out_model(mfin["outcome"]) == "wrong":
                 impl.pop("final"), modl.pop("final")
         ctx.compare(case, impl, modl, note=f"[{strat}] directory after each kill / outcome / resumed run: real vs model",
                     nontrivial=0 < ks[0] < nfine)
-        ctx.traces_validated += len(sc["stages"]) + 1
+        _tv(ctx, len(sc["stages"]) + 1)
         reads_ok = {"last_finished_iteration", "pickle/nifty_random_state"}
         bad = [r for r in fin.get("reads", []) if r not in reads_ok and not r.startswith(("pickle/iteration_", "pickle/latest.",
                "pickle/energy_history_", "pickle/minisanity_history_"))]
@@ -624,7 +716,7 @@ def _real_crosscheck(ctx, cfg, allsc, ref):
     cand = [sid for sid in allsc if sid not in failing]
     ctx.rng.shuffle(cand)
     mid = [sid for sid in cand if any(k.get("when") == "partial" for k in allsc[sid]["kills"])]
-    pick = failing + mid[:ctx.n(1, 6)] + [sid for sid in cand if sid not in mid][:ctx.n(1, 8)]
+    pick = failing + mid[:ctx.n(1, 4)] + [sid for sid in cand if sid not in mid][:ctx.n(0, 4)]
     try:
         reals = _pool().map(lambda sid: (sid, _scenario_real(f"{cfg['strategy']}{cfg['seed']}_{sid}", cfg, allsc[sid]["kills"])), pick)
     except Infra as e:
@@ -644,7 +736,7 @@ def _real_crosscheck(ctx, cfg, allsc, ref):
         if ctx.compare(dict(cfg=cfg, kills=sc["kills"], check="simulated-vs-real-kill"), view(rs), view(sc),
                        note="directory snapshots / outcome: real kill (os._exit) vs simulated kill"):
             confirmed.add(sid)
-            ctx.traces_validated += 1
+            _tv(ctx, 1)
     return confirmed
 
 
@@ -678,26 +770,45 @@ def _report_failures(ctx, cfg, allsc, ref, confirmed):
                 ctx.counterexample(dict(cfg=cfg, kills=sc["kills"]), *r)
 
 
-def _run_opaque(ctx):
-    """configurations the model does not cover (plots, exported operator outputs as HDF5, transitions): oracle only,
-    simulated kills at every second real op boundary"""
+def _run_opaque(ctx, kind="opaque", which=None):
+    """configurations the model does not cover — `opaque`: plots and exported operator outputs (HDF5); `map`: MAP runs
+    (n_samples = 0: SampleList.save of one sample, no mean file, resume through SampleList.load) — oracle only: simulated
+    kills at real op boundaries (every second one for `opaque`, all of them plus every partial flush for `map`)"""
     seed = ctx.rng.randrange(1000)
-    for cfg in (dict(n=2, seed=seed, n_samples=1, strategy="all", r0=False, plots=True, export=True),):
+    if kind == "opaque":
+        cfgs = (dict(n=2, seed=seed, n_samples=1, strategy="all", r0=False, plots=True, export=True),)
+    else:
+        cfgs = (dict(n=3, seed=seed, n_samples=0, strategy="latest", r0=False),
+                dict(n=3, seed=seed + 1, n_samples=0, strategy="all", r0=ctx.rng.random() < 0.5),
+                # VI iteration, MAP iteration, VI iteration under one base name: the mean file of the first must not survive
+                dict(n=3, seed=seed + 2, n_samples=1, ns_list=[1, 0, 1], strategy="latest", r0=False, mixed=True))
+        cfgs = tuple(c for c in cfgs if which in (None, c["strategy"] + ("-mixed" if c.get("mixed") else "")))
+    for cfg in cfgs:
         try:
-            o0 = _run_session(f"opq{seed}", cfg, [])
+            o0 = _run_session(f"{kind}{cfg['strategy']}{cfg['seed']}", cfg, [])
             ref = o0["ref"]
             if ref["status"] != "done":
+                ctx.counterexample(dict(op="ops", cfg=cfg), f"the uninterrupted run raised {ref['exc']}",
+                                   dict(driver="cl.optimize_kl", phase="uninterrupted", error=(ref["exc"] or {}).get("error")))
                 continue
-            kills = [[dict(at=k, when="before")] for k in range(0, len(ref["ops"]) + 1, 2)]
-            outs = _session_chunks(ctx, cfg, [dict(sid=i, kills=k) for i, k in enumerate(kills)], 6)
+            step = 2 if kind == "opaque" else 1
+            kills = [[dict(at=k, when="before")] for k in range(0, len(ref["ops"]) + 1, step)]
+            if kind == "map":
+                kills += [[dict(at=k, when="partial", frac=[1, 2])] for k, ev in enumerate(ref["ops"])
+                          if ev["op"] == "flush" and ev.get("n", 0) >= 2]
+                if ctx.quick:
+                    kills = kills[::2]
+            outs = _session_chunks(ctx, cfg, [dict(sid=i, kills=k) for i, k in enumerate(kills)], ctx.n(2, 6))
         except Infra as e:
-            ctx.notes.append(f"opaque-output configuration skipped: {e}")
+            ctx.notes.append(f"{kind} configuration skipped: {e}")
             continue
+        _SESS[json.dumps(cfg, sort_keys=True)] = o0
         allsc = {k: v for o in outs for k, v in o["scen"].items()}
         for sid, sc in allsc.items():
             ctx.case(dict(cfg=cfg, kills=sc["kills"]))
-            ctx.stat("opaque-config:kill")
-        _report_failures(ctx, cfg, allsc, ref, set())
+            ctx.stat(f"{kind}-config:{cfg['strategy']}{'-mixed' if cfg.get('mixed') else ''}:kill")
+        picked = _real_crosscheck(ctx, cfg, allsc, ref) if kind == "map" else set()
+        _report_failures(ctx, cfg, allsc, ref, picked)
 
 
 def search(ctx):
@@ -710,7 +821,7 @@ def search(ctx):
             return
         _SESS[json.dumps(cfg, sort_keys=True)] = o
         ops = o["ref"]["ops"]
-        hits = [k for k, ev in enumerate(ops) if ev["op"] in ("write", "openw", "replace") and (
+        hits = [k for k, ev in enumerate(ops) if ev["op"] in ("flush", "openw", "replace") and (
             "last_finished_iteration" in ev["path"] or "energy_history" in ev["path"] or "minisanity_history" in ev["path"]
             or "latest." in ev["path"])]
         for k in hits[len(hits) // 3:]:
